@@ -192,7 +192,7 @@ def electrum_run(mnemonic_type, entropy, lang):
 
 def _gen_electrum(rng):
     lang = rng.choice(["en", "en", "es", "ja", "zh", "zh_tw", "ko", "it", "fr", "pt", "cs"])
-    t = rng.choice(["standard", "segwit", "2fa", "2fa_segwit"])
+    t = rng.choice(["standard", "segwit", "2fa", "2fa", "2fa_segwit"])
     bits = rng.choice([121, 125, 132, 132, 132, 140, 220, 264])       # 11..24 words of a 2048-word list
     return dict(mnemonic_type=t, entropy=rng.randrange(2 ** (bits - 1), 2 ** bits), lang=lang)
 
@@ -208,7 +208,12 @@ class ElectrumBounded:
     def post_versioned_roundtrip(mnemonic_type, entropy, lang, result):
         if result is None:
             # refused: only '2fa' can be, when the entropy is not worth 12 or >= 20 words
-            return mnemonic_type == "2fa"
+            base = 1626 if lang == "pt" else 2048
+            n, e = 0, entropy + 1
+            while e:
+                e //= base
+                n += 1
+            return mnemonic_type == "2fa" and n != 12 and n < 20
         m, version, back, again, tampered, tv = result
         h = _electrum_version_prefix(m)
         ok = version == mnemonic_type and h.startswith(_ELECTRUM_PREFIX[mnemonic_type]) and back > entropy and again == m
